@@ -141,3 +141,56 @@ Proof.
   rewrite negb_involutive.
   destruct (Qeq_bool t0 0), (Qle_bool t0 start), (increasing_from t0 r); reflexivity.
 Qed.
+
+(* ------------------------------------------------------------------ the conversion / collection rows *)
+
+Lemma bucket_eqb_eq : forall a b, bucket_eqb a b = true -> a = b.
+Proof. destruct a, b; simpl; intros; try discriminate; reflexivity. Qed.
+
+Lemma is_step_eq : forall e, is_step e = true -> e = TStep.
+Proof. destruct e; simpl; intros; try discriminate; reflexivity. Qed.
+
+(* a deterministic conversion row adds  qe_of * (content of the source bucket)  - it IS the op [Convert (qe_of)];
+   a deterministic collection row adds the source content itself - it IS the op [Collect] *)
+Theorem conv_rows_are_ops : forall t, conv_table_ok t = true ->
+  forall r, In r t -> has_random (cr_expr r) = false ->
+  forall (env : string -> Q) (step : Q) (s : st),
+  if cr_identity r
+  then cr_src r = BkCharge /\ cr_sink r = BkPixel /\
+       (let s' := apply_op step s Collect in
+        pixel s' == pixel s + eval env (charge s) (cr_expr r) /\ photon s' = photon s /\ charge s' = charge s)
+  else cr_src r = BkPhoton /\ cr_sink r = BkCharge /\
+       (let s' := apply_op step s (Convert (qe_of env r)) in
+        charge s' == charge s + eval env (photon s) (cr_expr r) /\ photon s' = photon s /\ pixel s' = pixel s).
+Proof.
+  intros t Ht r Hin Hr env step s.
+  unfold conv_table_ok in Ht. rewrite forallb_forall in Ht. specialize (Ht r Hin).
+  unfold conv_row_ok in Ht. rewrite Hr in Ht. simpl in Ht.
+  destruct (cr_identity r).
+  - repeat (apply andb_prop in Ht; destruct Ht as [Ht ?]).
+    apply is_step_eq in Ht. rewrite Ht.
+    split; [apply bucket_eqb_eq; assumption|]. split; [apply bucket_eqb_eq; assumption|].
+    cbv zeta. cbn [apply_op pixel photon charge eval].
+    split; [rewrite Qred_correct; reflexivity|]. split; reflexivity.
+  - repeat (apply andb_prop in Ht; destruct Ht as [Ht ?]).
+    split; [apply bucket_eqb_eq; assumption|]. split; [apply bucket_eqb_eq; assumption|].
+    cbv zeta. cbn [apply_op pixel photon charge].
+    split; [|split; reflexivity].
+    rewrite Qred_correct. unfold qe_of.
+    rewrite (lin_homogeneous _ Ht env (photon s)). ring.
+Qed.
+
+(* such a row does not depend on the time step at all: the same call adds the same for any step *)
+Theorem conv_rows_step_free : forall t, conv_table_ok t = true ->
+  forall r, In r t -> has_random (cr_expr r) = false ->
+  forall (env : string -> Q) (x : Q), eval env x (cr_expr r) == qe_of env r * x.
+Proof.
+  intros t Ht r Hin Hr env x.
+  unfold conv_table_ok in Ht. rewrite forallb_forall in Ht. specialize (Ht r Hin).
+  unfold conv_row_ok in Ht. rewrite Hr in Ht. simpl in Ht. unfold qe_of.
+  destruct (cr_identity r).
+  - repeat (apply andb_prop in Ht; destruct Ht as [Ht ?]).
+    apply is_step_eq in Ht. rewrite Ht. simpl. ring.
+  - repeat (apply andb_prop in Ht; destruct Ht as [Ht ?]).
+    apply lin_homogeneous. exact Ht.
+Qed.
